@@ -4,6 +4,7 @@ import (
 	"context"
 	"errors"
 	"fmt"
+	"io"
 	"net"
 	"sync"
 	"time"
@@ -51,6 +52,37 @@ type E3Event struct {
 	Entry string `json:"entry"` // fire | chwrite | chtrigger | readloop | ctxwrite | ctxtrigger | close
 	Kind  int    `json:"kind,omitempty"`
 	At    int    `json:"at,omitempty"` // ctxwrite/ctxtrigger: pipeline position of the context
+	// chwrite/ctxwrite (C07): the message is an io.Reader over the same bytes: "eof" (data, then (0, io.EOF)) or
+	// "eofdata" (the data together with io.EOF). The head streams it; a failing transport write is a failure all the same.
+	Reader string `json:"reader,omitempty"`
+}
+
+// e3ReaderMsg is a streamed message that the recording handlers name by its content.
+type e3ReaderMsg struct {
+	text    string
+	data    []byte
+	eofData bool
+}
+
+func (m *e3ReaderMsg) String() string { return m.text }
+
+func (m *e3ReaderMsg) Read(p []byte) (int, error) {
+	if len(m.data) == 0 {
+		return 0, io.EOF
+	}
+	n := copy(p, m.data)
+	m.data = m.data[n:]
+	if m.eofData && len(m.data) == 0 {
+		return n, io.EOF
+	}
+	return n, nil
+}
+
+func e3WriteMsg(text, reader string) interface{} {
+	if reader == "" {
+		return []byte(text)
+	}
+	return &e3ReaderMsg{text: text, data: []byte(text), eofData: reader == "eofdata"}
 }
 
 // LateBuild is a pipeline-building operation applied after event After (sequentially, between events).
